@@ -82,3 +82,16 @@ pub fn predicates<S: Src>(s: &mut S) {
     check!(s, h.is_straight() == (cat == CAT_STRAIGHT_FLUSH || cat == CAT_STRAIGHT), "C13.predicates.category_straight");
     check!(s, !h.is_wheel() || (cat == CAT_STRAIGHT_FLUSH || cat == CAT_STRAIGHT), "C13.predicates.wheel_is_a_straight");
 }
+
+/// native only (concretiser body): predicates agree with the category obtained by ranking
+pub fn name_native<S: Src>(s: &mut S) {
+    use ckc_rs::cards::HandRanker;
+    use ckc_rs::hand_rank::HandRankName;
+    let (_, _, w) = draw_hand5(s);
+    assume!(s, all_distinct(&w));
+    let h = Five::from(w);
+    let name = h.hand_rank().name;
+    check!(s, h.is_straight_flush() == (name == HandRankName::StraightFlush), "C13.name.straight_flush_agrees_with_rank");
+    check!(s, h.is_flush() == (name == HandRankName::StraightFlush || name == HandRankName::Flush), "C13.name.flush_agrees_with_rank");
+    check!(s, h.is_straight() == (name == HandRankName::StraightFlush || name == HandRankName::Straight), "C13.name.straight_agrees_with_rank");
+}
